@@ -231,7 +231,7 @@ def check_hint(text):
         raise Exception('hint is not ghost code: ' + first[:80])
 
 
-def emit_fn(sig, body, requires='', ensures='', hints=(), loops=(), retname='r', decreases='',
+def emit_fn(sig, body, requires='', ensures='', hints=(), hints_all=(), loops=(), retname='r', decreases='',
             rename=None, stub=False, attrs='', replace_sig=None, subst=(), no_unwind=False):
     """Emit one function for the Verus unit.
     hints : [(anchor_substring, ghost_text)]  inserted on its own line(s) *before* the source line holding anchor
@@ -275,6 +275,18 @@ def emit_fn(sig, body, requires='', ensures='', hints=(), loops=(), retname='r',
             raise AnchorLost('hint anchor %r' % anchor)
         ls = body.rfind('\n', 0, i) + 1
         body = body[:ls] + text + '\n' + body[ls:]
+    for anchor, text in hints_all:
+        check_hint(text.replace('@@', ''))
+        if anchor not in body:
+            raise AnchorLost('hint anchor %r' % anchor)
+        lines = body.split('\n')
+        out = []
+        for ln in lines:
+            if anchor in ln:
+                ind = re.match(r'\s*', ln).group(0)
+                out.append(ind + text)
+            out.append(ln)
+        body = '\n'.join(out)
     for anchor, text in loops:
         if re.search(r'\b(assume|admit)\s*\(', text):
             raise Exception('loop spec contains assume/admit')
